@@ -16,3 +16,24 @@ def c01(tier):
     return V.generic_pbt('C01', tier, n_quick=3000, n_thorough=100000, floor=100,
                          assumptions=['frames are complete (declared shape) when saved; strings printable ASCII; names unique modulo case',
                                       'channel identity is positional (README submits unnamed channels)'])
+
+API_ASSUME = ['points and channels are declared by name before frames are added (README); frames carry the declared shape or a documented deviation',
+              'frames are only added to objects that declare at least one point or channel (adding empty frames to an empty object is undocumented)',
+              'strings printable ASCII; names unique modulo case']
+
+@reg('C05')
+def c05(tier):
+    return V.generic_pbt('C05', tier, n_quick=3000, n_thorough=100000, floor=100, assumptions=API_ASSUME)
+
+@reg('C06')
+def c06(tier):
+    return V.generic_pbt('C06', tier, n_quick=3000, n_thorough=100000, floor=100, assumptions=API_ASSUME)
+
+@reg('C08')
+def c08(tier):
+    return V.generic_pbt('C08', tier, n_quick=3000, n_thorough=100000, floor=100, assumptions=API_ASSUME +
+                         ['only caller-owned objects are mutated (copies of stored frames obtained through accessors are shallow by design)'])
+
+@reg('C10')
+def c10(tier):
+    return V.generic_pbt('C10', tier, n_quick=3000, n_thorough=100000, floor=100, assumptions=API_ASSUME)
